@@ -186,24 +186,38 @@ inductive Result where
 /-- Bound given to each of the five inner loops. -/
 def innerFuel : Nat := 100
 
+/-- How one pass through the five loops (from label `WRAP` to the `return`) ends. -/
+inductive PassOut where
+  | wrap (t : Int) (added : Bool)   -- some loop executed `goto WRAP`
+  | done (t : Int)                   -- all five conditions hold: `return t`
+  | fuel
+  deriving Repr, DecidableEq
+
 /-- Continue after a loop: `goto WRAP`, fall through, or give up. -/
-def LoopOut.andThen (o : LoopOut) (wrapK k : Int → Bool → Result) : Result :=
+def LoopOut.andThen (o : LoopOut) (k : Int → Bool → PassOut) : PassOut :=
   match o with
   | .fuel => .fuel
-  | .wrap t a => wrapK t a
+  | .wrap t a => .wrap t a
   | .next t a => k t a
 
-/-- The code from label `WRAP` on. -/
+/-- The five loops once. -/
+def pass (s : Sched) (z : Zone) (t : Int) (added : Bool) : PassOut :=
+  (monthLoop s z innerFuel t added).andThen fun t a =>
+  (dayLoop s z innerFuel t a).andThen fun t a =>
+  (hourLoop s z innerFuel t a).andThen fun t a =>
+  (minuteLoop s z innerFuel t a).andThen fun t a =>
+  (secondLoop s z innerFuel t a).andThen fun t _ => .done t
+
+/-- The code from label `WRAP` on (`goto WRAP` = the recursive call, a tail call). -/
 def nextFrom (s : Sched) (z : Zone) (yearLimit : Int) : Nat → Int → Bool → Result
   | 0, _, _ => .fuel
   | f + 1, t, added =>
     if year z t > yearLimit then .zero
     else
-      (monthLoop s z innerFuel t added).andThen (nextFrom s z yearLimit f) fun t a =>
-      (dayLoop s z innerFuel t a).andThen (nextFrom s z yearLimit f) fun t a =>
-      (hourLoop s z innerFuel t a).andThen (nextFrom s z yearLimit f) fun t a =>
-      (minuteLoop s z innerFuel t a).andThen (nextFrom s z yearLimit f) fun t a =>
-      (secondLoop s z innerFuel t a).andThen (nextFrom s z yearLimit f) fun t _ => .at t
+      match pass s z t added with
+      | .fuel => .fuel
+      | .wrap t' a' => nextFrom s z yearLimit f t' a'
+      | .done r => .at r
 
 /-- `t.Add(1s − t.Nanosecond())` on a nanosecond instant, expressed in whole seconds. -/
 def roundUp (tn : Int) : Int := (tn + (1000000000 - tn % 1000000000)) / 1000000000
